@@ -71,6 +71,26 @@ def rule_decode_set(ctx, rule, m, params, sets):
                    witness="a%%%sb" % (m.spelling.get(b) or b"%02X" % b).decode() if hasattr(m, "spelling") else "a%%%02Xb" % b,
                    sample="%s keeps %%%02X escaped (%s)" % (name, b, reason) if b in (0x2F, 0x25, 0x7F, 0x00) else None)
     ctx.require_instances(rule, n, 1024, "cells")
+    # dangling-'%' context: a decoded hex digit right after a kept '%' or '%X' would form a brand new escape
+    hexd = sorted(set(b"0123456789ABCDEFabcdef"))
+    for name, comp in sorted(F.COMPONENTS.items()):
+        pr = params[name]
+        for prefix in (b"%", b"%4", b"%f", b"a%"):
+            for b in hexd:
+                d = m.decision(b, {"only_printable": pr.get("only_printable"), "unsafe": pr.get("unsafe")}, prefix=prefix)
+                ctx.ob(rule, "no-new-escape/%s/%s+0x%02X" % (comp, prefix.decode(), b), d == "keep",
+                       "%s decodes %%%02X right after the dangling %r: the output contains the new escape %r (%s%%%02X decodes differently on the next pass)" % (name, b, prefix.decode(), (prefix + bytes([b])).decode(), prefix.decode(), b),
+                       site, witness=prefix.decode() + "%%%02X" % b, sample="%s: %r + %%%02X -> %s" % (name, prefix.decode(), b, d) if b == 0x41 and prefix == b"%4" else None)
+    if ctx.tier == "thorough":
+        # the decision for a non-hex byte must not depend on what the output buffer already holds
+        nonhex = [b for b in range(256) if b not in hexd]
+        for name, comp in sorted(F.COMPONENTS.items()):
+            pr = params[name]
+            pp = {"only_printable": pr.get("only_printable"), "unsafe": pr.get("unsafe")}
+            for prefix in (b"%", b"%4", b"ab", b"%C3", b"\xc3"):
+                diff = [b for b in nonhex if (m.decision(b, pp, prefix=prefix) == "decode") != (b in sets[name])]
+                ctx.ob(rule, "context-independence/%s/%r" % (comp, prefix), not diff,
+                       "%s decides bytes %s differently when the output already ends with %r" % (name, ["0x%02X" % b for b in diff[:5]], prefix), site, sample="%s: 234 non-hex bytes, prefix %r" % (name, prefix))
     for b, d in sorted(getattr(m, "others", {}).items()):
         ctx.ob(rule, "re-emission/0x%02X" % b, False, "_unquote_impl neither keeps '%%%02X<rest>' whole nor emits the byte followed by the rest of the piece (%s): bytes are lost or invented" % (b, d), site, witness="a%%%02X/t" % b)
 
@@ -324,7 +344,7 @@ def rule_upper_quoted(ctx, rule):
     n_tab = 0
     bad = None
     try:
-        for L in range(0, 5):
+        for L in range(0, 7 if ctx.tier == "thorough" else 5):
             for tup in itertools.product("%aF4z\u00e9", repeat=L):
                 sx = "".join(tup)
                 if "%" not in sx:
@@ -339,7 +359,7 @@ def rule_upper_quoted(ctx, rule):
                 break
         ctx.ob(rule, "upper_quoted/table", bad is None,
                "upper_quoted(%r) gives %r, expected %r: it must only change the case of hex digits inside valid %%HH escapes" % (bad or ("", "", "")), q.site(uref.node), witness=bad and bad[0],
-               sample="%d strings over the alphabet {%%, a, F, 4, z, e-acute} up to length 4" % n_tab)
+               sample="%d strings over the alphabet {%%, a, F, 4, z, e-acute} up to length %d" % (n_tab, 6 if ctx.tier == "thorough" else 4))
     except Unknown as e:
         ctx.undecided(rule, "upper_quoted not interpretable: %s" % e)
     if not has_regex:
